@@ -480,7 +480,7 @@ def main():
             for nk in NAME_KINDS:
                 for sk in SRC_KINDS:
                     tasks.append(('W', (pos, shape, nk, sk)))
-    maxn = 5 if th else 4
+    maxn = 6 if th else 4
     ar_alpha = (1, 4, 5)
     for n in range(0, maxn + 1):
         for ars in itertools.product(ar_alpha, repeat=n):
@@ -490,9 +490,9 @@ def main():
             for ars in itertools.product((0, 1, 4, 5), repeat=n):
                 if 0 in ars:
                     tasks.append(('N', (ars,)))
-    maxk = 3 if th else 2
+    maxk = 4 if th else 2
     for k in range(1, maxk + 1):
-        for frs in itertools.product(E_ALPHABET if k < 3 else E_ALPHABET[:8], repeat=k):
+        for frs in itertools.product(E_ALPHABET if k < 4 else E_ALPHABET[:6], repeat=k):
             for nz in (False, True):
                 tasks.append(('E', (frs, nz)))
     results = common.pmap(_run_task, tasks, chunksize=4)
@@ -555,7 +555,7 @@ def main():
         'bounds': {'W': 'one fragment of each of %d shapes (position kind x text shape x name kind x source kind) from an arbitrary state; text shapes %r' % (
                         len(POS_KINDS) * len(TEXT_SHAPES) * len(NAME_KINDS) * len(SRC_KINDS), TEXT_SHAPES),
                    'N': 'lines of <= %d segments of arity 1/4/5 (thorough: also empty tuples), all integer values, arbitrary carried column' % maxn,
-                   'E': 'streams of <= %d fragments over a %d-letter fragment alphabet, normalize on/off' % (maxk, len(E_ALPHABET)),
+                   'E': 'streams of <= %d fragments over a %d-letter fragment alphabet (length 4: its first 6 letters), normalize on/off' % (maxk, len(E_ALPHABET)),
                    'outside': 'fragments whose text has more than two line pieces; fragments giving only one of line/column; '
                               'CR and LF of one CRLF split over two fragments; the VLQ text itself is C10'},
         'queries': tot['z3_checks'], 'paths': tot['paths'], 'assertions_discharged': tot['assertions'],
